@@ -40,6 +40,70 @@ CHECKS = {
              "(replays run the real str() and parse the text).",
         technique='contract-based deductive verification of the three __str__ methods against a denotation contract; '
                   'AST scans for the renderers'),
+    'C01': dict(
+        category='proof',
+        text="count() of wigm (fixed and rational instances), wigm-prf(-batch) and scotland verified against a counter-level "
+             "contract: the main loop's variant 2*nH+nP decreases (termination), enough candidates remain (W2) is an inductive "
+             "invariant, on return nobody is hopeful or pending, the seats are filled and the withdrawn count is untouched; every "
+             "call of elect/defeat/unpend meets the writer's precondition. The other rules and the upper bound 'not more than the "
+             "seats' (needs the vote ledger) are covered by the bounded stand-in only.",
+        design_ref='DESIGN 6/C01, 11.6',
+        note=COMMON_NOTE + "Assumed: the election model of candidates.py selectors (Candidates.select/hopeful/... as abstract "
+             "lists with ghost cardinalities nH,nE,nD,nW,nP updated at every status write: card-update lemma), the C15 post-parse "
+             "invariant of rankings, trusted contracts of batchDefeat (wigm-prf) and the Scottish breakTie (bounded stand-in). "
+             "cfer, mpls, meek, warren, meek-prf, qpq count() bodies: bounded only (labelled). nE <= seats: bounded only.",
+        technique='contract-based deductive verification of the real count() bodies (loop invariants declared + Houdini-inferred, '
+                  'variants, call-site preconditions), z3; bounded run-time monitors as labelled stand-in'),
+    'C02': dict(
+        category='proof',
+        text="The step contracts of conservation are proved for all inputs: transfer() of wigm, wigm-prf, cfer, scotland credits "
+             "exactly weight x multiplier to the new top candidate or to the non-transferable total and changes nothing else; "
+             "Ballot.vote is exactly weight x multiplier; Candidate.addVote/zeroVote. Composition over whole counts (the ledger "
+             "T <= N at every action) is the bounded stand-in.",
+        design_ref='DESIGN 6/C02, 11.7',
+        note=COMMON_NOTE + "Composition across rounds, mpls/meek/qpq distribution steps and the rounding-loss bound are checked by "
+             "the bounded monitor only (labelled bounded; never counted as proved). meek-prf's post-exclusion snapshots are outside "
+             "the monitor (DESIGN 6.0 item 3).",
+        technique='contract-based deductive verification of the transfer closures and ballot value (array-store postconditions), '
+                  'bounded ledger monitor as labelled stand-in'),
+    'C04': dict(
+        category='proof',
+        text="calcQuota of wigm (integer_quota / exact / guarded / fixed cases), scotland, mpls, wigm-prf, cfer against the "
+             "prescribed formula for every ballots/seats; hasQuota comparator direction of all six rules (strict iff exact); at "
+             "every single-exclusion site of wigm, wigm-prf and scotland the excluded candidate does not hold a quota (site "
+             "obligation using the election loop's postcondition).",
+        design_ref='DESIGN 6/C04, 11.8',
+        note=COMMON_NOTE + "Meek-family quota recomputation and QPQ quota, and the not-excluded clause for cfer/mpls: bounded only.",
+        technique='contract-based deductive verification (closure postconditions; site obligations inside count()), z3'),
+    'C06': dict(
+        category='proof',
+        text="transfer(): the ballot moves to the first hopeful candidate of its ranking, every candidate passed over is not "
+             "hopeful (loop invariant + variant), exactly its value is credited; ballot invariant 0<=index<=len preserved by "
+             "advance(). Re-weighting formula / tally == sum of ballot values over whole counts: bounded monitor.",
+        design_ref='DESIGN 6/C06, 11.9',
+        note=COMMON_NOTE + "The re-weighting line (rounded down, never up), 'elected keeps exactly the quota' and tally = sum of "
+             "ballot values are checked at every recorded action by the bounded monitor only (labelled).",
+        technique='contract-based deductive verification of transfer()/Ballot methods; bounded tally monitor as stand-in'),
+    'C07': dict(
+        category='proof',
+        text="breakTie of wigm, wigm-prf, meek, mpls, qpq: result is a tied candidate, a single candidate is returned silently, "
+             "otherwise the first in tie-break order and a 'tie' action is logged (postconditions, any tied list); at the "
+             "single-exclusion sites of wigm, wigm-prf, scotland the excluded candidate has a lowest hopeful tally and the surplus "
+             "transferred first is a largest one (site obligations); tie order is read only by byTieOrder (SCAN).",
+        design_ref='DESIGN 6/C07, 11.10',
+        note=COMMON_NOTE + "Sure-loser batches (batchDefeat / findCertainLosers), the Scottish prior-stage tie search, meek-family "
+             "and QPQ exclusion sites: bounded monitor only (labelled).",
+        technique='contract-based deductive verification (closure postconditions with quantified tie-order clause, site '
+                  'obligations), AST scan for tie-order reads; bounded monitor as stand-in'),
+    'C09': dict(
+        category='proof',
+        text="Candidate.elect/defeat/unpend/unelect verified (state change + logged action + ghost counters); every call site in "
+             "wigm, wigm-prf, scotland count() satisfies the writer's precondition (hopeful -> elected/defeated, elected&pending "
+             "for unpend); .state/.pending/E.round have single writers (SCAN); newRound only increments; W2 invariant as in C01.",
+        design_ref='DESIGN 6/C09, 11.11',
+        note=COMMON_NOTE + "Call sites in cfer, mpls, meek, meek-prf, qpq and 'elected never exceed seats': bounded monitor only.",
+        technique='contract-based deductive verification (status-writer contracts, call-site preconditions in count()), AST '
+                  'single-writer scans; bounded transition monitor as stand-in'),
     'C17': dict(
         category='proof',
         text="Option precedence as postconditions of Options.getopt/setopt/normalize (force > caller > file > default, for every "
